@@ -662,14 +662,16 @@ def motion_stream(ctx, model_ok):
 #  * kernels built on point differences (tri/quad areas in all modes, normals, tet, pyramid /
 #    prism / hex linear, hex Gauss): relative error ~ eps * |position| / cell, i.e. 3e-9 at 1e7
 #    cell sizes from the origin -> tested up to 1e7 cell sizes with relative tolerance 1e-7;
-#  * centroid volume kernels (hex / prism / pyramid, the default mode) use absolute positions and
-#    float32 accumulators: 3e-5 at 1e2, 2e-4 at 1e3, 2e-3 at 1e4 cell sizes, useless beyond
-#    -> tested up to 1e3 cell sizes with relative tolerance 2e-3.
+#  * centroid volume kernels (hex / prism / pyramid, the default mode): when the translated kernels
+#    still carry the float32 accumulators (origin-based fans) they deliver 3e-5 at 1e2, 2e-4 at 1e3,
+#    2e-3 at 1e4 cell sizes, useless beyond -> tested up to 1e3 cell sizes at 2e-3; the repaired
+#    kernels (local origin, float64; proposed_fixes/C11_centroid_volume_kernels_local_origin.diff)
+#    deliver 3e-9 at 1e7 like the others -> tested up to 1e7 cell sizes at 1e-7.
 FAR = [(1e5, 0.37), (1e6, 1.7e-3), (1e7, 2.3e2), (4.1e6, 1.0)]
 NEAR_CENTROID = [(1e2, 0.37), (1e3, 1.7e-3)]
 
 
-def farfield_stream(ctx, model_ok):
+def farfield_stream(ctx, model_ok, centroid_f32=True):
     rng = ctx.rng
     tasks, meshes = [], []
     reps = 1 if ctx.tier == 'quick' else 4
@@ -697,6 +699,9 @@ def farfield_stream(ctx, model_ok):
                     [('normals', 'centroid', None, None), ('normals', 'linear', None, None)]
         elif K >= 1e4:
             calls = [('volumes', 'linear', False, False), ('volumes', 'gaussian', False, False)]
+            if not centroid_f32:
+                # repaired centroid kernels (local origin, float64): same range as the others
+                calls += [('volumes', 'centroid', False, False), ('metrics', None, False, False)]
         else:
             calls = [('volumes', 'centroid', False, False), ('metrics', None, False, False)]
         for entry, mode, rs, ab in calls:
@@ -1023,7 +1028,14 @@ def main(ctx):
     n_brick, n_brick_bad = oracle_brick(ctx, model_ok)
     n_motion, n_motion_bad = motion_stream(ctx, model_ok)
     n_hist, n_hist_bad = history_stream(ctx, model_ok)
-    n_far, n_far_bad = farfield_stream(ctx, model_ok)
+    centroid_f32 = model is None or any(
+        k['py'].endswith('_centroid') and 'volumes' in k['py'] and any(F32_KERNELS_NOTE in x for x in k['notes'])
+        for k in model['kernels'])
+    ctx.notes['centroid_volume_kernels'] = (
+        'origin-based fans with float32 accumulators: supported range assumed <= 1e3 cell sizes from the '
+        'origin at 2e-3' if centroid_f32 else
+        'local origin, float64: supported range assumed <= 1e7 cell sizes from the origin at 1e-7')
+    n_far, n_far_bad = farfield_stream(ctx, model_ok, centroid_f32)
     ctx.notes['search_evaluations'] = len(tasks) + n_brick + n_motion
     ctx.notes['impl_property_failures'] = {'assembly': n_prop_bad, 'closed_form': n_aff_bad,
                                            'brick': n_brick_bad, 'same_object_motion': n_motion_bad,
